@@ -183,6 +183,13 @@ func init() {
 		if json.Unmarshal(raw, &probe) != nil {
 			return nil
 		}
+		if _, ok := probe["query"]; ok {
+			var m struct {
+				Query []int `json:"query"`
+			}
+			json.Unmarshal(raw, &m)
+			return c02query(m.Query)
+		}
 		if _, ok := probe["text"]; ok {
 			var m map[string]string
 			json.Unmarshal(raw, &m)
@@ -222,7 +229,61 @@ func c02emptyKind(t string) string {
 	return "other"
 }
 
+// c02query: a query of several statements is printed as a whole (Query.String, Statements.String) and read back with
+// ParseQuery; the statements come from the C16 pool and are referred to by index.
+func c02query(idx []int) []ev.Finding {
+	var parts []string
+	for _, i := range idx {
+		if i < 0 || i >= len(c16pool) {
+			return nil
+		}
+		if strings.Contains(c16pool[i], "PASSWORD") {
+			return nil // printed redacted, by design not re-parsable
+		}
+		parts = append(parts, c16pool[i])
+	}
+	text := strings.Join(parts, "; ")
+	cs := map[string][]int{"query": idx}
+	q, err := influxql.ParseQuery(text)
+	if err != nil {
+		return nil // acceptance of joined statements is C16's
+	}
+	var out []ev.Finding
+	for name, printed := range map[string]string{"Query.String": q.String(), "Statements.String": q.Statements.String()} {
+		again, err := influxql.ParseQuery(printed)
+		if err != nil {
+			out = append(out, ev.Finding{Sig: "reprint-rejected:query:" + name, Witness: text, Detail: fmt.Sprintf("%s = %q does not parse: %v", name, printed, err), Case: cs, Rank: len(idx)})
+			continue
+		}
+		if !astx.Equal(astx.Denoted, q.Statements, again.Statements) {
+			path, a, b := astx.Diff(astx.Denoted, q.Statements, again.Statements)
+			out = append(out, ev.Finding{Sig: "reprint-differs:query:" + name, Witness: text, Detail: fmt.Sprintf("%s = %q re-parses differently at %s: %s vs %s", name, printed, path, a, b), Case: cs, Rank: len(idx)})
+		}
+	}
+	return out
+}
+
 func c02run(r *ev.Run) {
+	// queries of one to three statements
+	np := len(c16pool)
+	var seqs [][]int
+	for a := 0; a < np; a++ {
+		seqs = append(seqs, []int{a})
+		for b := 0; b < np; b++ {
+			seqs = append(seqs, []int{a, b})
+			for c := 0; c < np; c++ {
+				seqs = append(seqs, []int{a, b, c})
+			}
+		}
+	}
+	for _, sq := range seqs {
+		r.Eval()
+		r.State(astx.HashString(fmt.Sprint("Q|", sq)), len(sq) > 1)
+		for _, f := range c02query(sq) {
+			r.Report(f)
+		}
+	}
+	r.Set("queries_of_1_to_3_statements", len(seqs))
 	for _, t := range c02emptyNames {
 		stmt, err := influxql.ParseStatement(t)
 		if err != nil {
@@ -240,5 +301,5 @@ func c02run(r *ev.Run) {
 		sets = []boundSet{{"struct<=3,value<=1", []int{3, 0, 1}}, {"struct<=2,value<=2", []int{2, 0, 2}}}
 	}
 	runGrammar(r, sets, c02body)
-	r.Rule = "every statement the grammar model generates within the deviation bounds (values include names needing quotes/escapes, keywords as names, extreme and fractional numbers and durations, negated operands, regexes with slashes, subqueries) that the parser accepts is printed with String(), re-parsed and compared structurally; passwords are re-inserted for the two redacting printers. state = distinct statement text; every counted case is an accepted statement"
+	r.Rule = "every statement the grammar model generates within the deviation bounds (values include names needing quotes/escapes, keywords as names, extreme and fractional numbers and durations, negated operands, regexes with slashes, subqueries) that the parser accepts is printed with String(), re-parsed and compared structurally; passwords are re-inserted for the two redacting printers. state = distinct statement text; every counted case is an accepted statement. In addition every query of 1-3 statements from a 12-statement pool: Query.String() and Statements.String() are read back with ParseQuery and compared"
 }
